@@ -163,8 +163,14 @@ func kqConcJobs(tier string) []harness.Job {
 				if tier == "thorough" {
 					// bound 2 with state-key pruning (the oracle is a function of the end state), then, as far as the
 					// time allows, no bound at all
-					jobs = append(jobs, harness.Job{Family: "kqconc", Bound: 2, Prune: true, Params: map[string]any{"init": init, "t1": "C", "t2": t2, "fs": fs}})
-					jobs = append(jobs, harness.Job{Family: "kqconc", Bound: -1, Prune: true, Deepening: true, MaxSeconds: 120, Params: map[string]any{"init": init, "t1": "C", "t2": t2, "fs": fs}})
+					b2 := 2
+					if t2 != "" && fs != "" {
+						b2 = 1 // three parties besides the reader: bound 1 (bound 2 runs to millions of schedules per program)
+					}
+					jobs = append(jobs, harness.Job{Family: "kqconc", Bound: b2, Prune: true, Params: map[string]any{"init": init, "t1": "C", "t2": t2, "fs": fs}})
+					if t2 == "" || fs == "" {
+						jobs = append(jobs, harness.Job{Family: "kqconc", Bound: -1, Prune: true, Deepening: true, MaxSeconds: 60, Params: map[string]any{"init": init, "t1": "C", "t2": t2, "fs": fs}})
+					}
 					continue
 				}
 				jobs = append(jobs, harness.Job{Family: "kqconc", Bound: b, Params: map[string]any{"init": init, "t1": "C", "t2": t2, "fs": fs}})
